@@ -79,7 +79,9 @@ def make_ranges(rng):
     import panqec.codes as pc
     dnames = getattr(pc, cname).deformation_names
     npool = [{'r_x': 1, 'r_y': 0, 'r_z': 0}, {'r_x': 0, 'r_y': 0, 'r_z': 1}, {'r_x': 0.25, 'r_y': 0.25, 'r_z': 0.5},
-             {'r_x': 0.125, 'r_y': 0.5, 'r_z': 0.375}, [0.5, 0.25, 0.25], [0.0, 1.0, 0.0]]
+             {'r_x': 0.125, 'r_y': 0.5, 'r_z': 0.375}, [0.5, 0.25, 0.25], [0.0, 1.0, 0.0],
+             # decimal fractions whose float sum is not exactly 1
+             {'r_x': 0.6, 'r_y': 0.3, 'r_z': 0.1}, [0.7, 0.2, 0.1]]
     if dnames:
         npool.append({'r_x': 0.25, 'r_y': 0.25, 'r_z': 0.5, 'deformation_name': dnames[0]})
         npool.append({'r_x': 0, 'r_y': 0, 'r_z': 1, 'deformation_name': dnames[-1]})
@@ -143,6 +145,25 @@ def main():
                 with contextlib.redirect_stdout(io.StringIO()):
                     bs = read_input_dict(json.loads(json.dumps(spec)), os.path.join(tmp, 'o%d.json' % i), verbose=False)
                     rec['sims'] = [canon(s) for s in bs._simulations]
+                    # echo: the noise direction of every simulation is, number for number, one of the REQUESTED directions
+                    req = set()
+
+                    def walk(o):
+                        if isinstance(o, dict):
+                            if 'r_x' in o and 'r_y' in o and 'r_z' in o:
+                                req.add((float(o['r_x']), float(o['r_y']), float(o['r_z'])))
+                            for v in o.values():
+                                walk(v)
+                        elif isinstance(o, list):
+                            if len(o) == 3 and all(isinstance(v, (int, float)) and not isinstance(v, bool) for v in o):
+                                req.add(tuple(float(v) for v in o))
+                            for v in o:
+                                walk(v)
+                    walk(spec)
+                    rec['echo_bad'] = [[si_, [float(s.error_model.params[k_]) for k_ in ('r_x', 'r_y', 'r_z')]]
+                                       for si_, s in enumerate(bs._simulations)
+                                       if tuple(float(s.error_model.params[k_]) for k_ in ('r_x', 'r_y', 'r_z')) not in req][:3]
+                    rec['requested_directions'] = sorted(req)
                     rec['n_get_runs'] = len(get_runs(json.loads(json.dumps(spec)))) if kind != 'list' else None
                     if kind == 'ranges':
                         rec['expanded'] = expand_input_ranges(json.loads(json.dumps(spec['ranges'])))
